@@ -50,6 +50,7 @@ for _typ in ('SAMLRequest', 'SAMLResponse'):
              returns='Dict(Str, Any)',
              lets={'GLUE': "ite(has_query(location), '&', '?')"},
              ensures=[
+                 ('fresh', 'fresh(result)'),
                  # C14: Location = destination + glue + urlencoded parameters, every parameter one k=v pair
                  ('C14-unsigned-location',
                   "implies(not truthy(signer), str_of(result['headers'][0][1]) == "
